@@ -171,8 +171,8 @@ class Log:
         if seed is not None:
             self.ev("seed", seed=seed, prop=prop)
 
-    def ev(self, kind, **data):
-        self.events.append([kind, canon(data)])
+    def ev(self, _evkind, **data):
+        self.events.append([_evkind, canon(data)])
 
     def count(self, name, n=1):
         self.counters[name] = self.counters.get(name, 0) + n
